@@ -66,6 +66,18 @@ func errName(err error) string {
 
 var pubAddr = multiaddr.StringCast("/ip4/8.8.4.4/tcp/3103")
 
+// yieldCtx is a caller's context whose Err method is a scheduling point: wherever the library asks the context for its
+// error, other goroutines may run first.
+type yieldCtx struct {
+	context.Context
+	yield func()
+}
+
+func (c yieldCtx) Err() error {
+	c.yield()
+	return c.Context.Err()
+}
+
 type call struct {
 	op       string
 	returned bool
@@ -179,6 +191,11 @@ func Execute(sc Scenario) (log []gate.Event, key, detail string) {
 		ctx := ctx
 		if sc.Cancels && (op == "directOk" || op == "next") && s.Rng.Intn(2) == 0 {
 			ctx, c.cancel = context.WithCancel(ctx)
+			ctx = yieldCtx{ctx, func() {
+				if !passthrough {
+					s.Yield("x.ctxerr", k, 0)
+				}
+			}}
 		}
 		s.Go(op, func() {
 			mu.Lock()
